@@ -24,7 +24,23 @@ def ns_of(name):
     return ''
 
 
+def _ns_in(ns, n):
+    """does the namespace constraint admit namespace n ('' = absent)?  forms: '##any' | '##other:<tns>' |
+    '##not:<a>|<b>...' (XSD 1.1 notNamespace; an empty item = absent) | tuple of namespaces"""
+    if ns == '##any':
+        return True
+    if isinstance(ns, str) and ns.startswith('##other:'):
+        return n != '' and n != ns[len('##other:'):]
+    if isinstance(ns, str) and ns.startswith('##not:'):
+        return n not in ns[len('##not:'):].split('|')
+    return n in ns
+
+
 def wild_allows(ns, name):
+    return _ns_in(ns, ns_of(name))
+
+
+def _wild_allows_old(ns, name):
     n = ns_of(name)
     if ns == '##any':
         return True
@@ -40,16 +56,11 @@ def wild_overlap(ns1, ns2):
         if isinstance(ns, str):
             if ns.startswith('##other:'):
                 cands.add(ns[len('##other:'):])
+            elif ns.startswith('##not:'):
+                cands.update(ns[len('##not:'):].split('|'))
         else:
             cands.update(ns)
-
-    def al(ns, n):
-        if ns == '##any':
-            return True
-        if isinstance(ns, str) and ns.startswith('##other:'):
-            return n != '' and n != ns[len('##other:'):]
-        return n in ns
-    return any(al(ns1, c) and al(ns2, c) for c in cands)
+    return any(_ns_in(ns1, c) and _ns_in(ns2, c) for c in cands)
 
 
 class Leaf:
@@ -372,6 +383,8 @@ def _selftest():
     al = ('a', [E(a), E(b, 0, 1)], 1, 1)
     assert accepts(al, [b, a]) and accepts(al, [a]) and not accepts(al, [b]) and not accepts(al, [a, a])
     assert render(m2) == '(a, c+, a*)+'
+    assert wild_overlap('##not:tns', ('',)) and not wild_overlap('##not:tns|', ('',)) and wild_overlap('##not:', ('x',))
+    assert wild_allows('##not:tns', 'u') and not wild_allows('##not:tns', '{tns}a') and not wild_allows('##not:', 'u')
     # 1.1 element wins over wildcard: (a | any*) : 'a a' is invalid (first a is the element, the choice is over)
     mc = ('c', [E(a), ('w', '##any', 0, None)], 1, 1)
     assert accepts(mc, [a, a], None, '1.0') and not accepts(mc, [a, a], None, '1.1') and accepts(mc, [b, a], None, '1.1')
